@@ -15,6 +15,12 @@
     order, integers over their whole width, byte strings bit for bit; `block_roundtrip` is the
     single-block instance.  (Raw values: table indexes and time offsets as stored; their
     resolution to records is the independent `Spec.Cdns` interpretation.)
+  * `records_resolve_to_projection`: over the block-building model (`Model.Builder`, tied to the code byte for byte)
+    and the model of the reader's index resolution (`Model.Resolve.resolveQ`): for EVERY record sequence and EVERY hint
+    masks, resolving the stored query/responses of the block built yields, in their original order, exactly the hint
+    projections of the query/responses buffered (every hint-enabled member equal – addresses, names, RDATA byte for
+    byte, integers unchanged, question and RR lists element by element – and nothing else); `stored_iff_nonempty`:
+    a record is stored exactly when its projection holds something.
   The composed statement over the exporter model is in Props/C12 (conservation); the tie of the
   schema model to the code is the `blk` correspondence (model reader = library reader, model
   writer = library bytes, on every output of every session) and the three-way differential
@@ -24,6 +30,7 @@ import CdnsVerif.Proofs.Keys
 import CdnsVerif.Proofs.DenoteWrite
 import CdnsVerif.Proofs.ConformsB
 import CdnsVerif.Model.File
+import CdnsVerif.Proofs.Resolve
 import CdnsVerif.Props.C06
 import CdnsVerif.Props.C17
 
@@ -121,5 +128,24 @@ def sampleBlock : Val := .record [
 example : ∃ fuel₀, ∀ fuel, fuel₀ ≤ fuel →
     (readFile fuel).run (fileBytes samplePreamble [sampleBlock, sampleBlock]) = .ok ((samplePreamble, .list [sampleBlock, sampleBlock]), []) :=
   file_roundtrip_checked samplePreamble [sampleBlock, sampleBlock] (by rfl)
+
+/-! ### record level: what is read back is the hint projection of what was buffered -/
+
+open CdnsVerif.Model.Builder in
+/-- **Export → read at record level.** -/
+theorem records_resolve_to_projection (h : Hints) (recs : List Rec) :
+    (build h recs).qrs.map (resolveQ (build h recs)) = expectedQrs h recs := resolve_build' h recs
+
+open CdnsVerif.Model.Builder in
+theorem stored_iff_nonempty (h : Hints) (g : GQR) (b : Blk) : (buildQ h g b).2.filled = (project h g).anySome :=
+  filled_eq_anySome h g b
+
+open CdnsVerif.Model.Builder in
+/-- the raw block of a record sequence, once it lies in the domain, survives the file round trip (composition of the two halves) -/
+theorem built_block_roundtrip (h : Hints) (recs : List Rec) (pi : Option Nat) (pv : Val)
+    (hc : (conformsB filePreamble pv && conformsListB block [toVal (build h recs) pi h.tps]) = true) :
+    ∃ fuel₀, ∀ fuel, fuel₀ ≤ fuel →
+      (readFile fuel).run (fileBytes pv [toVal (build h recs) pi h.tps]) = .ok ((pv, .list [toVal (build h recs) pi h.tps]), []) :=
+  file_roundtrip_checked pv _ hc
 
 end CdnsVerif.Props.C01
